@@ -7,6 +7,8 @@ import (
 	"path/filepath"
 	"sort"
 	"strings"
+	"sync"
+	"sync/atomic"
 	"syscall"
 
 	remoteexecution "github.com/bazelbuild/remote-apis/build/bazel/remote/execution/v2"
@@ -382,6 +384,10 @@ func GenContents(rng *rand.Rand, n int) [][]byte {
 		if rng.IntN(8) == 0 {
 			l = 1000 + rng.IntN(9000)
 		}
+		if rng.IntN(50) == 0 {
+			// Just larger than the chunk size used by the buffer layer.
+			l = 66000 + rng.IntN(4000)
+		}
 		b := make([]byte, l)
 		for j := range b {
 			b[j] = byte('a' + rng.IntN(26))
@@ -451,6 +457,13 @@ func GenDeepDir(rng *rand.Rand, depth int, contents [][]byte) *Node {
 // GenWideDir generates one directory with many entries.
 func GenWideDir(rng *rand.Rand, width int, contents [][]byte) *Node {
 	n := NewDir()
+	var small [][]byte
+	for _, c := range contents {
+		if len(c) < 20000 {
+			small = append(small, c)
+		}
+	}
+	contents = small
 	for i := 0; i < width; i++ {
 		name := fmt.Sprintf("w%03d", i)
 		switch rng.IntN(4) {
@@ -463,6 +476,30 @@ func GenWideDir(rng *rand.Rand, width int, contents [][]byte) *Node {
 		}
 	}
 	return n
+}
+
+// ParallelFor runs fn(i) for i in [0,n) on the given number of worker
+// goroutines (cases must be independent of each other).
+func ParallelFor(n, workers int, fn func(i int)) {
+	if workers < 1 {
+		workers = 1
+	}
+	var next atomic.Int64
+	var wg sync.WaitGroup
+	for w := 0; w < workers; w++ {
+		wg.Add(1)
+		go func() {
+			defer wg.Done()
+			for {
+				i := int(next.Add(1)) - 1
+				if i >= n {
+					return
+				}
+				fn(i)
+			}
+		}()
+	}
+	wg.Wait()
 }
 
 // --- path handling (independent of bb-storage's path package) -------------
